@@ -67,6 +67,9 @@ func ERC20MessageHandler(msg *transfer.TransferMessage) (*proposal.Proposal, err
 	divisor := new(big.Int)
 	divisor.Exp(big.NewInt(10), big.NewInt(10), nil)
 	bigAmount.Div(bigAmount, divisor)
+	if !bigAmount.IsUint64() {
+		return nil, errors.New("amount does not fit the Bitcoin network's 64-bit amounts")
+	}
 
 	return proposal.NewProposal(msg.Source, msg.Destination, BtcTransferProposalData{
 		Amount:       bigAmount.Uint64(),
